@@ -349,6 +349,36 @@ def rule_macs(ctx) -> None:
         d = dict(zip([x.arg for x in a.args][len(a.args) - len(a.defaults):], [ctx.prog.fold(x, fn.module) for x in a.defaults]))
         dfl[name] = d.get("tag_len")
     chk.decide(dfl["aes_ccm_encrypt"] == dfl["aes_ccm_decrypt"] == 16, "C09.enc-dec-twin", f"{SYM}::aes_ccm default tag_len", "default tag length 16 on both sides", f"{dfl}", "16 / 16", SYM)
+    # every optional parameter of an encrypt wrapper is optional with the same default on the decrypt side (and vice versa), so that
+    # leaving the optional parameters out on both sides decrypts what was encrypted
+    m_sym = ctx.m(SYM)
+    pairs = []
+    for q_, f_ in sorted(ctx.prog.functions.items()):
+        if f_.module is m_sym and f_.cls is None and f_.name.endswith("_encrypt"):
+            try:
+                pairs.append((f_, ctx.func(SYM, f_.name[:-len("_encrypt")] + "_decrypt")))
+            except Exception:  # noqa: BLE001
+                raise AnalysisError(f"C09.enc-dec-twin: {f_.name} has no decrypt twin")
+    if len(pairs) < 6:
+        raise AnalysisError(f"C09.enc-dec-twin: only {len(pairs)} encrypt/decrypt pairs found")
+
+    def optional_of(f_):
+        a_ = f_.node.args
+        pos = [x.arg for x in a_.args]
+        d_ = dict(zip(pos[len(pos) - len(a_.defaults):], [ctx.prog.fold(x, f_.module) if not (isinstance(x, ast.Constant)) else x.value for x in a_.defaults]))
+        for x, dv in zip(a_.kwonlyargs, a_.kw_defaults):
+            if dv is not None:
+                d_[x.arg] = dv.value if isinstance(dv, ast.Constant) else ctx.prog.fold(dv, f_.module)
+        return pos + [x.arg for x in a_.kwonlyargs], d_
+    data_names = {"plain_data", "encrypted_data"}
+    for fe, fd in pairs:
+        pe, de = optional_of(fe)
+        pd_, dd = optional_of(fd)
+        shared = [x for x in pe if x in pd_ and x not in data_names]
+        diff = [x for x in shared if (x in de) != (x in dd) or (x in de and repr(de[x]) != repr(dd[x]))]
+        only = [x for x in list(de) + list(dd) if x not in shared and x not in data_names]
+        chk.decide(not diff and not only, "C09.enc-dec-twin", f"{SYM}::{fe.name}/{fd.name} defaults", f"optional parameters {sorted(set(de) | set(dd))} have the same default on both sides",
+                   f"{fe.name} defaults {de} but {fd.name} defaults {dd}" + (f" (only on one side: {only})" if only else ""), "same optional parameters, same defaults", A.loc(SYM, fd.node))
     # hash algorithm lookup: every enum label names a cryptography hash class
     known = {"SHA1", "SHA224", "SHA256", "SHA384", "SHA512", "SHA512_224", "SHA512_256", "SHA3_224", "SHA3_256", "SHA3_384", "SHA3_512", "MD5", "SM3", "BLAKE2b", "BLAKE2s"}
     en = ctx.cls(HASH, "EnumHashAlgorithm")
